@@ -301,6 +301,24 @@ func genC05(c *Ctx, r *rng.R, i int) {
 	tg := target{num: numTargets[r.Intn(len(numTargets))], str: strTargets[r.Intn(len(strTargets))], n: r.Intn(4)}
 	for k := range calls {
 		calls[k] = genCall(r, ty, tg)
+		if k > 0 && r.Chance(22) {
+			// the same bound again with the other inclusiveness, or the same length bound from the other side:
+			// the tie-breaks of "is the existing bound already tighter"
+			prev := calls[r.Intn(k)]
+			switch prev.kind {
+			case "lower", "upper":
+				calls[k] = prev
+				calls[k].inc = !prev.inc
+				if r.Chance(25) {
+					calls[k].kind = map[string]string{"lower": "upper", "upper": "lower"}[prev.kind]
+				}
+			case "lenlo", "lenhi":
+				calls[k] = prev
+				if r.Bool() {
+					calls[k].kind = map[string]string{"lenlo": "lenhi", "lenhi": "lenlo"}[prev.kind]
+				}
+			}
+		}
 	}
 	var result cty.Value
 	baseBefore, baseCoq := fingerprint(base), cq.Val(base)
